@@ -68,6 +68,25 @@ def gen_cases(ctx, rng):
         cases.append({"dir": rng.choice(["upstream", "downstream"]), "chain": chain, "src": src, "ops": ops, "links": 1, "link_start": [8 * L.MS],
                       "horizon": 3600 * 1000 * L.MS, "seed": 4000 + i, "expect_latency": Lms, "updated_before_connect": True})
         stats["updated_before_connect"] += 1
+    # several connections through the same latency toxic at once (one toxic object serves every link of the proxy): the delay is
+    # per piece and per connection - waits that overlap in time on different connections must not disturb one another
+    stats["shared_by_connections"] = 0
+    for i in range(24 if ctx.tier == "quick" else 500):
+        Lms = rng.choice([5, 20, 100, 300])
+        chain = [L.tx("latency", name="l", latency=Lms, jitter=0)] + [L.tx("noop", name="m%d" % j) for j in range(rng.range(0, 1))]
+        nl = rng.range(2, 4)
+        srcs = []
+        for k in range(nl):
+            t = rng.range(0, 3) * L.MS + k * rng.choice([0, 1, Lms // 2, Lms - 1]) * L.MS + rng.range(0, 999)
+            src = []
+            for _ in range(rng.range(1, 6)):
+                src.append({"at": t, "n": rng.range(1, 1500)})
+                t += rng.choice([0, 1, Lms // 3 + 1, Lms, 2 * Lms]) * L.MS + rng.range(0, 999)
+            src.append({"at": t + rng.range(1, 3 * Lms) * L.MS, "close": True})
+            srcs.append(src)
+        cases.append({"dir": rng.choice(["upstream", "downstream"]), "chain": chain, "src": srcs[0], "srcs": srcs, "links": nl,
+                      "horizon": 3600 * 1000 * L.MS, "seed": 7000 + i})
+        stats["shared_by_connections"] += 1
     return cases, stats
 
 
@@ -113,7 +132,8 @@ def run(ctx):
         rule="one latency toxic (latency from {0,1,5,20,100,250} ms, jitter 0 or up to 300 ms with draws mirrored from the seed) at positions "
              "1-3 among noops; single pieces, bursts (one of them 1100 chunks, beyond the 1024 buffer), paced traffic, pauses; some with a second "
              "latency toxic in series and arrivals far apart; plus connections established after the toxic was updated (once, twice) or a further "
-             "toxic was added through the API, carrying a burst of 5-120 pieces; non-trivial = at least two pieces and latency + jitter > 0; distinct by JSON",
+             "toxic was added through the API, carrying a burst of 5-120 pieces; plus 2-4 connections at once through the same toxic with overlapping "
+             "waits, each judged and replayed on its own; non-trivial = at least two pieces and latency + jitter > 0; distinct by JSON",
         nontrivial=lambda c: len(c["src"]) > 2 and any(t["type"] == "latency" and t["attributes"]["latency"] + t["attributes"]["jitter"] > 0 for t in c["chain"]),
         assumptions=["math/rand.Int63n(n) in [0,n), mirrored from the same seed",
                      "known finding F6: two latency toxics in series under-delay a piece that waited behind another (theorem C08_series_refuted); "
